@@ -121,7 +121,7 @@ Next ==
 Spec == Init /\ [][Next]_vars
 
 \* strides of the two tiers (cfg: KStride <- ...)
-QuickStride    == [P \in SizeSet |-> IF P <= 256 THEN 1 ELSE IF P <= 1024 THEN 7 ELSE 61]
+QuickStride    == [P \in SizeSet |-> IF P <= 128 THEN 1 ELSE IF P <= 256 THEN 3 ELSE IF P <= 1024 THEN 17 ELSE 127]
 ThoroughStride == [P \in SizeSet |-> 1]
 
 \* Sanity of the oracle itself (not of the data): the counts of a (P, k) add up to P nodes' worth
